@@ -167,7 +167,7 @@ def run(tier):
             V.disagree("malformed report written by the command line tool", {"case": rid, "inputs": CLI_INPUTS[rid.split("-")[1]]})
             continue
         V.disagree("malformed report (%s)" % diagnose(oby[rid]), {"case": by[rid], "report": oby[rid]["report"]})
-    selftest(lines, tdir)
+    selftest(lines, tdir, set(rejected))
     rc = V.finish()
     vlib.write_evidence("C12", tier, {
         "states": sum(r.distinct for r in rs) + sum(t.distinct for t in trs),
@@ -297,9 +297,12 @@ def diagnose(o):
     return "shape/grounding"
 
 
-def selftest(lines, tdir):
-    cand = [ln for ln in lines if len(ln["report"]["arrays"].get("result", [])) >= 2]
+def selftest(lines, tdir, rejected=frozenset()):
+    cand = [ln for ln in lines if len(ln["report"]["arrays"].get("result", [])) >= 2 and ln["id"] not in rejected
+            and all(r["arrays"].get("trace") for r in ln["report"]["arrays"]["result"][:2])]
     if not cand:
+        if rejected:
+            return      # every candidate is itself rejected: the verdict stands without the self-test
         raise vlib.Infra("selftest: no report with two results")
     good = copy.deepcopy(cand[0])
     good["id"] = "good"
